@@ -136,7 +136,7 @@ class Gen:
                 opts = []
                 if any(t == "ints" for t in env.values()):
                     a = self.var_of("ints", env)
-                    opts += [M.Var(a.root, [r.choice([0, 1, -1, 2])]), M.Var(a.root, ["size"]),
+                    opts += [M.Var(a.root, [r.choice([0, 1, -1, 2, -2, -3, -4, -5, -7, 3, 5])]), M.Var(a.root, ["size"]),
                              M.Var(a.root, [r.choice(["first", "last"])])]
                 if any(t == "objs" for t in env.values()):
                     a = self.var_of("objs", env)
@@ -155,7 +155,7 @@ class Gen:
                 opts = []
                 if any(t == "strs" for t in env.values()):
                     a = self.var_of("strs", env)
-                    opts += [M.Var(a.root, [r.choice([0, 1, -1])]), M.Var(a.root, [r.choice(["first", "last"])])]
+                    opts += [M.Var(a.root, [r.choice([0, 1, -1, 2, -2, -3, -4, -6])]), M.Var(a.root, [r.choice(["first", "last"])])]
                 if any(t == "objs" for t in env.values()):
                     a = self.var_of("objs", env)
                     opts += [M.Var(a.root, [0, "t"]), M.Var(a.root, [r.choice([0, 1]), "tags", 0])]
